@@ -44,7 +44,7 @@ def table():
     maps = []
     for m in re.finditer(r'\(\* \d+: (\w+) \*\)\nDefinition map_\w+ : bmapping := BMapping \[[^\]]*\]\n  \[([^\]]*)\]\n  \[([^\]]*)\]', src):
         maps.append((m.group(1), [int(v) for v in m.group(3).split(';') if v]))
-    fonts = [(m.group(1), int(m.group(2))) for m in re.finditer(r'\(\* (\w+::FONT_\w+) \*\) BFont \[[^\]]*\] \d+ (\d+) ', src)]
+    fonts = [(m.group(1), int(m.group(2))) for m in re.finditer(r'\(\* (\w+::FONT_\w+) \*\) BFont \[[^\]]*\] \d+ \d+ (\d+) ', src)]
     return maps, fonts
 
 
